@@ -25,6 +25,9 @@ fn seed() -> u64 {
 
 fn run_prop(id: &str, ctx: &Ctx) -> Option<fw::Report> {
     Some(match id {
+        "C19" => props::c19::run(ctx),
+        "C14" => props::c14::run(ctx),
+        "C17" => props::c17::run(ctx),
         "C13" => props::c13::run(ctx),
         "C18" => props::c18::run(ctx),
         "C01" => props::c01::run(ctx),
@@ -47,6 +50,9 @@ fn run_prop(id: &str, ctx: &Ctx) -> Option<fw::Report> {
 
 fn replay_prop(id: &str, ctx: &Ctx, job: &serde_json::Value) -> Option<stats::Stats> {
     match id {
+        "C19" => props::c19::replay(ctx, job),
+        "C14" => props::c14::replay(ctx, job),
+        "C17" => props::c17::replay(ctx, job),
         "C13" => props::c13::replay(ctx, job),
         "C18" => props::c18::replay(ctx, job),
         "C01" => props::c01::replay(ctx, job),
@@ -138,6 +144,9 @@ fn main() {
             };
             let code = fw::finish(&ctx, &id, rep, &sc);
             std::process::exit(code);
+        }
+        "c19-child" => {
+            std::process::exit(props::c19::child_main(args.get(2).map(|s| s.as_str()).unwrap_or(""), args.get(3).map(|s| s.as_str()).unwrap_or("")));
         }
         "c10-child" => {
             std::process::exit(props::c10::child_main(args.get(2).map(|s| s.as_str()).unwrap_or("")));
